@@ -32,7 +32,7 @@ mod __verif_kani {
         };
     }
 
-    //@ kind=B props=C13 tier=thorough bound=len=64,6_symbolic_bytes_at_27..33_rest_ASCII fn=validate_utf8_avx2,check_block stubs=_mm256_max_epu8,_mm256_testz_si256 : every 6-byte pattern straddling the first 32-byte block boundary, followed by a full ASCII block and the zero tail block: acceptor verdict == Table 3-7 well-formedness
+    //@ kind=B props=C13 bound=len=64,6_symbolic_bytes_at_27..33_rest_ASCII fn=validate_utf8_avx2,check_block stubs=_mm256_max_epu8,_mm256_testz_si256 : every 6-byte pattern straddling the first 32-byte block boundary, followed by a full ASCII block and the zero tail block: acceptor verdict == Table 3-7 well-formedness
     avx2_case!(c13_avx2_window_block_edge_32, 64, 27, 6);
     //@ kind=B props=C13 bound=len=64,5_symbolic_bytes_at_59..64_rest_ASCII fn=validate_utf8_avx2,check_block stubs=_mm256_max_epu8,_mm256_testz_si256 : every 5-byte pattern at the very end of an input whose length is a multiple of 32 (zero-padded tail block): acceptor verdict == well-formedness (truncated sequences at the end must be rejected)
     avx2_case!(c13_avx2_window_end_len64, 64, 59, 5);
